@@ -82,10 +82,27 @@ fn ck(name: &str, fname: &str, got: &Z, want: &Z, a: &Z, b: &Z) -> Result<(), St
     }
 }
 
-fn check_ops<F: PF>(c: &OpsCase, info: &mut Info) -> Result<(), String> {
-    let p = F::modulus();
-    let az = c.a.build(p, F::LIMBS);
-    let bz = c.b.build(p, F::LIMBS);
+macro_rules! concrete_ops {
+    ($fname:ident, $F:ty, $R:ty) => {
+        /// written against the CONCRETE types with method-call syntax, exactly as a user of the crate
+        /// would write it (inherent methods, if any, take precedence over the derived trait methods)
+        #[allow(unused_qualifications)]
+        pub fn $fname(c: &OpsCase, info: &mut Info) -> Result<(), String> {
+            type F = $F;
+            type R = $R;
+            #[allow(unused)]
+            fn val(a: &F) -> Z {
+                let r: R = a.into_repr();
+                repr_val(&r)
+            }
+            #[allow(unused)]
+            fn elem(v: &Z) -> Result<F, String> {
+                F::from_repr(repr_of::<F>(v)).map_err(|e| format!("{}::from_repr rejected the reduced value 0x{:x}: {:?}", <F as PF>::NAME, v, e))
+            }
+
+    let p = <F as PF>::modulus();
+    let az = c.a.build(p, <F as PF>::LIMBS);
+    let bz = c.b.build(p, <F as PF>::LIMBS);
     info.class(format!("a:{}", c.a.class()));
     info.class(format!("b:{}", c.b.class()));
     let triv = |v: &Z| v.is_zero() || v.is_one();
@@ -93,8 +110,8 @@ fn check_ops<F: PF>(c: &OpsCase, info: &mut Info) -> Result<(), String> {
     let a: F = elem(&az)?;
     let b: F = elem(&bz)?;
     // into_repr gives back the reduced representative
-    ck("from_repr/into_repr", F::NAME, &val(&a), &az, &az, &bz)?;
-    let n = F::NAME;
+    ck("from_repr/into_repr", <F as PF>::NAME, &val(&a), &az, &az, &bz)?;
+    let n = <F as PF>::NAME;
     let mut t = a;
     cr("add_assign", || t.add_assign(&b))?;
     ck("add_assign", n, &val(&t), &((&az + &bz) % p), &az, &bz)?;
@@ -153,7 +170,7 @@ fn check_ops<F: PF>(c: &OpsCase, info: &mut Info) -> Result<(), String> {
         return Err(format!("{}::partial_cmp wrong for 0x{:x}, 0x{:x}", n, az, bz));
     }
     // From<F> for Repr and decimal parsing
-    let rp: F::Repr = a.into();
+    let rp: R = a.into();
     ck("Repr::from(elem)", n, &repr_val(&rp), &az, &az, &bz)?;
     let dec = format!("{}", az);
     match cr("from_str", || F::from_str(&dec))? {
@@ -161,14 +178,13 @@ fn check_ops<F: PF>(c: &OpsCase, info: &mut Info) -> Result<(), String> {
         None => return Err(format!("{}::from_str({}) = None", n, dec)),
     }
     Ok(())
+        }
+    };
 }
 
-fn check_fq_ops(c: &OpsCase, info: &mut Info) -> Result<(), String> {
-    check_ops::<crt::Fq>(c, info)
-}
-fn check_fr_ops(c: &OpsCase, info: &mut Info) -> Result<(), String> {
-    check_ops::<crt::Fr>(c, info)
-}
+concrete_ops!(check_fq_ops, crt::Fq, crt::FqRepr);
+concrete_ops!(check_fr_ops, crt::Fr, crt::FrRepr);
+
 
 // ---- representation type -------------------------------------------------------------------
 
@@ -194,29 +210,39 @@ fn repr_case_strategy(limbs: usize) -> BoxedStrategy<ReprCase> {
     (repr_strategy(limbs), repr_strategy(limbs), shift_strategy(), any::<u64>()).prop_map(|(a, b, shift, small)| ReprCase { a, b, shift, small }).boxed()
 }
 
-fn check_repr<F: PF>(c: &ReprCase, info: &mut Info) -> Result<(), String> {
-    let p = F::modulus();
-    let width = 64 * F::LIMBS;
+macro_rules! concrete_repr {
+    ($fname:ident, $F:ty, $R:ty) => {
+        #[allow(unused_qualifications)]
+        pub fn $fname(c: &ReprCase, info: &mut Info) -> Result<(), String> {
+            type F = $F;
+            type R = $R;
+            fn val(a: &F) -> Z {
+                let r: R = a.into_repr();
+                repr_val(&r)
+            }
+
+    let p = <F as PF>::modulus();
+    let width = 64 * <F as PF>::LIMBS;
     let m = Z::one() << width;
-    let az = c.a.build(p, F::LIMBS);
-    let bz = c.b.build(p, F::LIMBS);
-    let n = format!("{}Repr", F::NAME);
+    let az = c.a.build(p, <F as PF>::LIMBS);
+    let bz = c.b.build(p, <F as PF>::LIMBS);
+    let n = format!("{}Repr", <F as PF>::NAME);
     let triv = |v: &Z| v.is_zero() || v.is_one();
     info.nt_if(!(triv(&az) && triv(&bz)));
     info.class(if &az >= p { "a>=p" } else { "a<p" });
-    let a = repr_of::<F>(&az);
-    let b = repr_of::<F>(&bz);
+    let a: R = repr_of::<F>(&az);
+    let b: R = repr_of::<F>(&bz);
     // from_repr: Ok iff < p, and then into_repr returns the value
     match cr("from_repr", || F::from_repr(a))? {
         Ok(e) => {
             if &az >= p {
-                return Err(format!("{}::from_repr accepted 0x{:x} >= p", F::NAME, az));
+                return Err(format!("{}::from_repr accepted 0x{:x} >= p", <F as PF>::NAME, az));
             }
             ck("from_repr->into_repr", &n, &val(&e), &az, &az, &bz)?;
         }
         Err(_) => {
             if &az < p {
-                return Err(format!("{}::from_repr rejected 0x{:x} < p", F::NAME, az));
+                return Err(format!("{}::from_repr rejected 0x{:x} < p", <F as PF>::NAME, az));
             }
             info.class("from_repr:rejected");
         }
@@ -266,10 +292,10 @@ fn check_repr<F: PF>(c: &ReprCase, info: &mut Info) -> Result<(), String> {
         return Err(format!("{}::cmp/== wrong for 0x{:x}, 0x{:x}", n, az, bz));
     }
     // From<u64>
-    let f = F::Repr::from(c.small);
+    let f = R::from(c.small);
     ck("From<u64>", &n, &repr_val(&f), &Z::from(c.small), &az, &bz)?;
     // big-/little-endian I/O against the integer's bytes
-    let nbytes = 8 * F::LIMBS;
+    let nbytes = 8 * <F as PF>::LIMBS;
     let mut be_want = az.to_bytes_be();
     while be_want.len() < nbytes {
         be_want.insert(0, 0);
@@ -281,7 +307,7 @@ fn check_repr<F: PF>(c: &ReprCase, info: &mut Info) -> Result<(), String> {
     if buf != be_want {
         return Err(format!("{}::write_be(0x{:x}) wrote {:02x?}", n, az, buf));
     }
-    let mut back = F::Repr::default();
+    let mut back = R::default();
     cr("read_be", || back.read_be(&buf[..]))?.map_err(|e| format!("read_be error {}", e))?;
     ck("read_be", &n, &repr_val(&back), &az, &az, &bz)?;
     let mut buf = vec![];
@@ -289,23 +315,22 @@ fn check_repr<F: PF>(c: &ReprCase, info: &mut Info) -> Result<(), String> {
     if buf != le_want {
         return Err(format!("{}::write_le(0x{:x}) wrote {:02x?}", n, az, buf));
     }
-    let mut back = F::Repr::default();
+    let mut back = R::default();
     cr("read_le", || back.read_le(&buf[..]))?.map_err(|e| format!("read_le error {}", e))?;
     ck("read_le", &n, &repr_val(&back), &az, &az, &bz)?;
     // a short read is an error, not a value
-    let mut back = F::Repr::default();
+    let mut back = R::default();
     if cr("read_be short", || back.read_be(&be_want[..nbytes - 1]))?.is_ok() {
         return Err(format!("{}::read_be accepted a truncated buffer", n));
     }
     Ok(())
+        }
+    };
 }
 
-fn check_fq_repr(c: &ReprCase, info: &mut Info) -> Result<(), String> {
-    check_repr::<crt::Fq>(c, info)
-}
-fn check_fr_repr(c: &ReprCase, info: &mut Info) -> Result<(), String> {
-    check_repr::<crt::Fr>(c, info)
-}
+concrete_repr!(check_fq_repr, crt::Fq, crt::FqRepr);
+concrete_repr!(check_fr_repr, crt::Fr, crt::FrRepr);
+
 
 // ---- constants through behaviour -------------------------------------------------------------
 
@@ -371,6 +396,7 @@ pub fn def() -> PropDef {
             Box::new(Sub { name: "fq-repr", rule: "FqRepr as 384-bit unsigned integer: from_repr range, add_nocarry/sub_noborrow within preconditions, shr/shl/div2/mul2, num_bits, parity, cmp, From<u64>, be/le I/O", quick: 60_000, thorough: 3_000_000, strategy: || boxed(repr_case_strategy(6)), check: check_fq_repr }),
             Box::new(Sub { name: "fr-repr", rule: "FrRepr as 256-bit unsigned integer, same operations", quick: 60_000, thorough: 3_000_000, strategy: || boxed(repr_case_strategy(4)), check: check_fr_repr }),
             Box::new(EnumSub { name: "constants", rule: "hard-coded constants observed through behaviour: char(), NUM_BITS, one/zero, documented generator coordinates, multiplicative generators (enumerated)", run: run_constants, replay: replay_constants, exhaustive: true }),
+            super::corpus_sub_field(),
         ],
         assumptions: {
             let mut v = COMMON_ASSUMPTIONS.to_vec();
